@@ -523,8 +523,16 @@ def inv_token(spec):
 def inv_run(spec, ksks, kind):
     tok = inv_token(spec)
     emu.install(tok)
-    cfg = ceremony.make_config(ksks, {"s": {i: {"publish": next(iter(ksks)), "sign": next(iter(ksks))} for i in range(1, 10)}},
-                               hsm={"m0": {"module": "emu:0", "pin": "1234"}})
+    rc = vlib.run_impl(ceremony.make_config, ksks, {"s": {i: {"publish": next(iter(ksks)), "sign": next(iter(ksks))} for i in range(1, 10)}},
+                       hsm={"m0": {"module": "emu:0", "pin": "1234"}})
+    if rc[0] != "ok":
+        tags = [k.get("key_tag") for k in ksks.values()]
+        if all(t is None or 1 <= t <= 65535 for t in tags):
+            rep.violation("impl-vs-spec", f"{kind}: a configuration whose KSK key tags {tags} are all possible key tags is refused ({rc[2]}): "
+                          "a collision with that KSK cannot be detected and the inventory cannot confirm it", {"kind": kind, "ksks": {n: {a: str(b) for a, b in k.items()} for n, k in ksks.items()}})
+        count(kind + "-config-refused")
+        return
+    cfg = rc[1]
     ri = vlib.run_impl(init_pkcs11_modules, cfg, rw_session=True)
     if ri[0] != "ok":
         count(kind + "-init-failed")
